@@ -12,6 +12,7 @@ import (
 	"path/filepath"
 	"strings"
 	"sync"
+	"sync/atomic"
 	"time"
 )
 
@@ -419,6 +420,11 @@ func Solve(frs []*FuncResult, dir string, timeoutS int, keepDir string) {
 				batchFirst(fr, dir, 5000)
 			}
 			var wg2 sync.WaitGroup
+			// at most 12 races of one function at a time; once 8 obligations of the function have failed their race the
+			// function is broken and the remaining open ones are reported without a race (a change that invalidates a whole
+			// contract would otherwise cost minutes of solver timeouts; on a tree where everything proves this never triggers)
+			slots := make(chan struct{}, 12)
+			var failed int32
 			for _, o := range fr.Obls {
 				if o.Verdict == "proved" {
 					continue
@@ -426,7 +432,18 @@ func Solve(frs []*FuncResult, dir string, timeoutS int, keepDir string) {
 				wg2.Add(1)
 				go func(o *Obligation) {
 					defer wg2.Done()
+					slots <- struct{}{}
+					defer func() { <-slots }()
+					if atomic.LoadInt32(&failed) >= 8 && !o.NoRetry {
+						o.Verdict = "undecided"
+						o.NoRetry = true
+						o.Output = "not raced: 8 obligations of this function had already failed\n" + o.Output
+						return
+					}
 					raceOne(fr, o, dir, timeoutS, keepDir)
+					if o.Verdict != "proved" {
+						atomic.AddInt32(&failed, 1)
+					}
 				}(o)
 			}
 			if fr.Cover != nil {
